@@ -86,7 +86,15 @@ def run_lines(ck, exe, lines, timeout=900, env=None):
         i += len(out)
         if i >= len(lines):
             break
-        # the process died on request i
+        # the process died on request i: confirm on that request alone (a transient failure of the
+        # process itself - sanitizer start-up under memory pressure - is not a crash of the evaluator)
+        p1 = ck.run([exe], input=lines[i] + "\n", timeout=timeout, env=e)
+        o1 = p1.stdout.splitlines()
+        if o1:
+            answers.append(o1[0])
+            i += 1
+            continue
+        p = p1
         tail = re.sub(r"\s+", " ", p.stderr[-1500:])
         m = re.search(r"(AddressSanitizer: [^=]*|runtime error: [^\n]*|double free[^\n]*|free\(\)[^\n]*|Segmentation[^\n]*)", p.stderr)
         what = m.group(1).strip()[:200] if m else ("exit code %d" % p.returncode)
